@@ -46,6 +46,8 @@ def deco2(c):
     c.d2 = 10
     return c
 GX = 'global-x'
+GL = ['g']
+GN = 10
 KWD = {'tag': 'Td', 'level': 4}
 MKW = {'metaclass': Meta, 'level': 5}
 '''
@@ -78,6 +80,7 @@ MEMBERS = {
     "for": "    acc = []\n    for i in range(3):\n        acc.append(i)\n",
     "while": "    n = 0\n    while n < 3:\n        n += 1\n",
     "lambda": "    lam = lambda self, q=2: ('lam', q)\n",
+    "augglobal": "    GL += ['m']\n    GN += 1\n    ga = (GL, GN)\n",
     "lambdadefault": "    LIM = 3\n    lam = lambda self, q=LIM, *, r=(LIM, GX): ('lam', q, r)\n    LIM = 9\n    fs = []\n    for _n in range(2):\n        fs.append(lambda x=0, _n=_n, lim=LIM: (x, _n, lim))\n    fsres = [f() for f in fs]\n    fs = None\n",
     "super0": "    def who(self):\n        return 'K>' + super().who()\n",
     "super2": "    def who(self):\n        return 'K2>' + super(K, self).who()\n",
